@@ -5,6 +5,7 @@ import Driver.Pop3
 import Driver.San
 import Driver.Broker
 import Driver.Hub
+import Driver.WsWire
 import Driver.Shutdown
 import Driver.Dot
 import Driver.Crash
@@ -30,6 +31,7 @@ def main (args : List String) : IO UInt32 := do
   | ["san"] => runLoop (fun (_ : Unit) toks => ((), (sanHandler toks).getD "bad-op")) ()
   | ["broker"] => runLoop brokerStep {}
   | ["hub"] => Driver.HubMode.main
+  | ["wswire"] => Driver.WsWireMode.main
   | ["shutdown"] => runLoop (fun (_ : Unit) toks => ((), shutdownHandler toks)) ()
   | ["dot"] => runLoop Driver.Dot.step ()
   | ["crash"] => runLoop Driver.CrashMode.step Driver.CrashMode.init
